@@ -29,7 +29,8 @@ def run(ctx):
             quals[1] = quals[0]  # duplicate qualifier: dict semantics
         # entry expressions: all generators, plus a small fixed set of package-bearing expressions that recur across pools
         # while the package definitions change from one content evaluation result to the next
-        pool = [(quals[j], f"meaning {j}", ctx.rng.choice(["X [1P]", "X [2P]", "Muss [1P]", "X [2P] U [4]", "X"]) if ctx.rng.random() < 0.3 else valcorr.ahb_expr(ctx.rng))
+        # the meaning of an entry is any text, the empty one included (a line of the AHB without a description)
+        pool = [(quals[j], "" if ctx.rng.random() < 0.12 else f"meaning {j}", ctx.rng.choice(["X [1P]", "X [2P]", "Muss [1P]", "X [2P] U [4]", "X"]) if ctx.rng.random() < 0.3 else valcorr.ahb_expr(ctx.rng))
                 for j in range(n)]
         if n >= 2 and ctx.rng.random() < 0.35:
             # the same expression at several entries (qualifiers of one code list often share their condition), also an invalid one
